@@ -161,6 +161,13 @@ CATALOGUE = {
   (F, 'R-MISSCELL', 'icarttfiles/ffi1001.py', "[str(c) if v == c else '%.6e' % v\n", "['%.6e' % c if v == c else '%.6e' % v\n"),
   (F, 'R-MISSCELL', 'icarttfiles/ffi1001.py', "    codes = [None] + [getattr(f.variables[k], 'missing_value', -999)\n", "    codes = [None] + [getattr(f.variables[k], 'missing_value', -9999)\n"),
   (S, None, 'icarttfiles/ffi1001.py', "[str(c) if v == c else '%.6e' % v\n", "['%.6e' % v if v != c else str(c)\n"),
+  # R-ONELINE (defect fixed in /repo 5cfa62d): a comment attribute takes exactly one header line
+  (F, 'R-ONELINE', 'icarttfiles/ffi1001.py', "        val = ' '.join(str(getattr(f, key, '')).splitlines())\n", "        val = getattr(f, key, '')\n"),
+  (F, 'R-ONELINE', 'icarttfiles/ffi1001.py', "        val = ' '.join(str(getattr(f, key, '')).splitlines())\n", "        val = str(getattr(f, key, '')).replace('\\n', ' ')\n"),
+  (F, 'R-ONELINE', 'icarttfiles/ffi1001.py', "        val = ' '.join(str(getattr(f, key, '')).splitlines())\n", "        val = str(getattr(f, key, '')).strip()\n"),
+  (S, None, 'icarttfiles/ffi1001.py', "        val = ' '.join(str(getattr(f, key, '')).splitlines())\n", "        val = ' '.join(str(getattr(f, key, '')).split())\n"),
+  (S, None, 'icarttfiles/ffi1001.py', "        val = ' '.join(str(getattr(f, key, '')).splitlines())\n", "        val = str(getattr(f, key, '')).replace('\\r', ' ').replace('\\n', ' ')\n"),
+  (S, None, 'icarttfiles/ffi1001.py', "        val = ' '.join(str(getattr(f, key, '')).splitlines())\n        print('%s: %s' % (key, val), file=outfile)", "        print('%s: %s' % (key, ' '.join(str(getattr(f, key, '')).splitlines())), file=outfile)"),
   (S, None, 'icarttfiles/ffi1001.py', "[str(c) if v == c else '%.6e' % v\n", "[repr(c) if c == v else '%.6e' % v\n"),
   (S, None, 'icarttfiles/ffi1001.py', "[str(c) if v == c else '%.6e' % v\n", "[str(c) if v == c else '%.17g' % v\n"),
   (S, None, 'icarttfiles/ffi1001.py', "        print(delim.join([str(c) if v == c else '%.6e' % v\n                          for v, c in zip(row, codes)]), file=outfile)", "        cells = []\n        for v, c in zip(row, codes):\n            if v == c:\n                cells.append(str(c))\n            else:\n                cells.append('%.6e' % v)\n        print(delim.join(cells), file=outfile)"),
